@@ -14,13 +14,23 @@ func main() { Main("c01", run) }
 
 func run(seed uint64, n int, tier string, outDir string) []*Stats {
 	r := NewRng(seed)
-	cf := NewCoqFile("From V Require Import Common.Base C01.Utf C01.Quote C01.SpecLiteral C01.Harness.")
+	cf := NewCoqFile("From V Require Import Common.Base C01.Utf C01.Quote C01.SpecLiteral C01.Num C01.SpecNumeric C01.Harness.")
 	extra := ""
 
 	// 1. literal printers against the Coq model (hook level) + predicate
 	sts := NewStats("c01-strings", seed)
 	extra += corrStrings(r, sts, cf, 2*n)
 	sts.Finish("string/template/identifier printing: boundary grid of every special case of printUnquotedUTF16 plus seeded UTF-16 sequences over all classes (controls, quotes, ${, </script in any case, U+2028/2029/FEFF, Latin-1, BMP, paired and lone surrogates) x random printer configuration (charset, unicode-escapes, inline-script guard, line limit, minify-syntax, template support, prefix column); exact bytes compared with the Coq model and the printed literal decoded by the specification; distinct_nontrivial = distinct (units, configuration) whose output is not the identity")
+
+	stn := NewStats("c01-numbers", seed)
+	extra += corrNumbers(r, stn, cf, n+n/2)
+	stn.Finish("number printing: boundary grid (every rewriting branch of printNonNegativeFloat, powers of two and ten +-1ulp, 2^53, 1e21, hex range ends) plus seeded float64 values over bit-pattern classes (raw bits, subnormals, integers, 1e12..2^64, few-digit decimals, fractions, round numbers, 17-digit stress) x minify-whitespace; exact bytes and flag compared with the Coq model; printed text evaluated by the MV specification and by an exact rational oracle rounding to nearest-even; printNumber sign/NaN/Infinity forms x level x with-nesting x minify-syntax; distinct_nontrivial = distinct (bits, flags) whose output differs from FormatFloat's text")
+
+	stg := NewStats("c01-literal-glue", seed)
+	extra += glueLiterals(r, stg, cf, n)
+	glueNodeLiterals(r, stg, n)
+	glueJSX(r, stg, n/3)
+	stg.Finish("`x = <literal>;` programs (string/template literals spelled with a random mix of raw characters and every escape form over the UTF-16 classes; numbers spelled in decimal, exponent, hex, binary and octal) through api.Transform under charset x minify-whitespace x line-limit x unicode-escapes/template-literal support x platform: the emitted literal is cut out and evaluated by the Coq specification and an exact harness oracle against the input's value, ASCII-only and </script checks on the whole output; fixed token-gluing/precedence/ASI/identifier/regexp/bigint/template hazard programs and generated JSX programs (preserve-then-transform = transform = automatic on a normalising runtime) executed in node; distinct_nontrivial = distinct (program, options)")
 
 	// 2. behaviour through the public API (node oracle)
 	st := NewStats("c01", seed)
@@ -29,7 +39,7 @@ func run(seed uint64, n int, tier string, outDir string) []*Stats {
 	if err := os.WriteFile(filepath.Join(outDir, "c01_cases.v"), []byte(cf.String()+extra), 0o644); err != nil {
 		panic(err)
 	}
-	return []*Stats{sts, st}
+	return []*Stats{sts, stn, stg, st}
 }
 
 type tcase struct {
